@@ -316,6 +316,15 @@ fn parse_at_rule(
                             let close = ss.append_nested_block(st, input);
                             close_stack.push(close);
                         }
+                        Token::Ident(x) if x.eq_ignore_ascii_case("layer") => {
+                            // the bare `layer` keyword: an anonymous layer
+                            input.next().ok();
+                            let st = StepToken::wrap(Token::AtKeyword("layer".into()), peek.position);
+                            ss.append_token(st, input, Some(peek.token.clone()));
+                            let st = StepToken::wrap(Token::CurlyBracketBlock, peek.position);
+                            let close = ss.append_nested_block(st, input);
+                            close_stack.push(close);
+                        }
                         Token::Ident(_) | Token::ParenthesisBlock => {
                             has_media = true;
                             break;
